@@ -56,6 +56,9 @@ InitW(cap) ==
     postClose |-> 0,       \* events received after Close returned
     gonePaths |-> {},      \* paths whose watch ended by deletion / rename and that were not added again
     flags   |-> {},
+    prep    |-> {},        \* inodes whose removal a watched parent directory of this Watcher has reported (IN_DELETE for one of their names)
+    prepAmb |-> FALSE,     \* the records being applied belong to several operations at once: which entry a parent reported is not known
+    prepU   |-> {},        \* ... inodes that were watched when such records included a parent's IN_DELETE: reported or not - undetermined
     seenCk  |-> {},        \* cookies whose Rename event has been received
     fog     |-> FALSE,     \* outcome no longer determined by the statements (see DESIGN): judge only crashes, blocking, leaks
     nontriv |-> {},        \* which non-trivial situations this watcher went through (evidence)
@@ -122,12 +125,19 @@ ApplyRec(ws, r, s, maxq, unordered) ==
       op    == InotifyOpOf(vis)
       name  == IF r.n = "" THEN e.path ELSE Append(e.path, r.n)
       from  == IF HasBit(vis, IN_MOVED_TO) /\ r.ck # 0 /\ r.ck \in DOMAIN ws.ck THEN ws.ck[r.ck] ELSE <<>>
-      pst   == IF dself THEN ParentState(ws, e.path) ELSE "none"
+      \* "... reporting Remove unless the watched parent directory already did" (C09): the end of a watch may stay silent only
+      \* if a parent directory watch of this Watcher really reported the removal.  (The code asks instead whether Dir(path) is
+      \* listed when it gets to the record - see known findings "parent listed but silent".)
+      reported == r.ino \in ws.prep
+      maybe == ~reported /\ (ws.prepAmb \/ r.ino \in ws.prepU)
+      pst   == IF dself /\ (reported \/ maybe) THEN ParentState(ws, e.path) ELSE "none"
+      silent == dself /\ ~reported /\ ~maybe /\ ParentState(ws, e.path) # "none"
       merged== ws.last.ino = r.ino /\ ws.last.m = r.m /\ ws.last.n = r.n
       certain == ws.ovf /\ ws.room > 0         \* the queue is known to have room again (observed), see CheckObs
       min   == IF e.st # "live" \/ merged \/ (ws.ovf /\ ~certain) \/ pst = "other" THEN 0 ELSE 1
       ent   == [seq |-> s, ino |-> r.ino, name |-> name, op |-> op, from |-> from,
-                min |-> IF pst = "live" THEN 0 ELSE min, ovf |-> (ws.ovf /\ ~certain), self |-> (r.n = ""), sup |-> (pst = "live"), ck |-> r.ck]
+                min |-> IF pst = "live" \/ (dself /\ maybe) THEN 0 ELSE min, ovf |-> (ws.ovf /\ ~certain), self |-> (r.n = ""),
+                sup |-> (pst = "live" /\ ~maybe), ck |-> r.ck]
       queued== vis # 0 \/ ign
       \* an ended watch reports nothing further: records queued behind its end record yield no expectation
       w1 == IF op = 0 \/ (mself /\ e.rec) \/ e.st = "ending" THEN ws
@@ -136,8 +146,9 @@ ApplyRec(ws, r, s, maxq, unordered) ==
                             !.mq = IF ent.min = 1 THEN Append(@, Len(ws.exp) + 1) ELSE @]
       w2 == IF HasBit(vis, IN_MOVED_FROM) /\ r.ck # 0
             THEN [w1 EXCEPT !.ck = (r.ck :> name) @@ @, !.ckseq = (r.ck :> s) @@ @, !.fromSeqs = Append(@, s)] ELSE w1
-      w3 == IF e.st = "ending" /\ e.how = "move" /\ (HasBit(r.m, IN_DELETE_SELF) \/ ign)
+      w3a == IF e.st = "ending" /\ e.how = "move" /\ (HasBit(r.m, IN_DELETE_SELF) \/ ign)
             THEN [w2 EXCEPT !.flags = @ \cup {"msgone"}] ELSE w2
+      w3 == IF silent THEN [w3a EXCEPT !.flags = @ \cup {"parent_listed_but_silent"}] ELSE w3a
       w4 == IF isEnd /\ e.st = "live"
             THEN [Unsuppress(w3, e.path) EXCEPT !.uw[r.ino].st = "ending", !.uw[r.ino].endSeq = s,
                             !.uw[r.ino].how = IF mself THEN "move" ELSE "delete",
@@ -310,7 +321,8 @@ Settle(ws) ==
                                        THEN {"C09"} ELSE {})
                              \cup (IF lost[1].ino \in ws.uoInos THEN {"C09"} ELSE {})  \* the watch is kept until the last descriptor is closed
                              \cup (IF ws.ovf THEN {"C10"} ELSE {}),      \* after an overflow the watcher must keep delivering
-                     "lost:" \o OpName(lost[1].op)) ELSE ws
+                     "lost:" \o OpName(lost[1].op) \o (IF "parent_listed_but_silent" \in ws.flags /\ HasBit(lost[1].op, OpRemove)
+                                                       THEN ":parent_listed_but_silent" ELSE "")) ELSE ws
       w2 == IF drop /\ ws.gotOvf = 0 /\ ws.phase = "open" /\ ~ws.fog
             THEN Bad(w1, {"C01", "C10"}, "overflow_not_reported") ELSE w1
       G  == {i \in DOMAIN ws.uw : ws.uw[i].st = "ending"}
